@@ -20,7 +20,7 @@ EXPLANATION = ('Bit-exact round trips of 2^32 / 2^64 values are properties of st
                'character classes and lengths: 0/1 alone or followed by a non-digit, true/false in any letter case -> value; another digit run '
                '-> std::out_of_range; anything else -> std::invalid_argument; every character read lies inside the text. R16.5 wide inputs are '
                'narrowed through Utf8::Encode before parsing and numbers are widened through Utf8::Decode after printing (same parser/printer '
-               'for all four character widths). R16.6 wide code units are not narrowed before being compared/classified.')
+               'for all four character widths). R16.6 wide code units are not narrowed before being compared/classified. R16.7 the whole text after the blanks reaches the parser.')
 ASSUMPTIONS = ['std::from_chars / std::to_chars implement [charconv]: ptr in [first, last], shortest round-trip output for floating types',
                'BITSERIALIZER_HAS_FLOAT_FROM_CHARS is 1 on this toolchain (the strtod fallback is not compiled and not analysed)']
 TRUSTED = ['clang 14 AST', 'bsfacts', 'bsv/linear.py']
@@ -310,6 +310,8 @@ def run(prog, rep):
     if n6 < 6:
         raise AnalysisBroken('R16.6: only %d wide-text parsers instantiated' % n6)
 
+    check_whole_text(prog, rep)
+
     rep.rule('R16.5', 'wide strings: parsers narrow through Utf8::Encode then use the char parser; printers widen through Utf8::Decode', floor=4)
     n5 = 0
     for f in sorted(prog.funcs.values(), key=lambda g: g.id):
@@ -335,3 +337,91 @@ def run(prog, rep):
                 rep.finding('R16.5', 'print|%s' % wide_out.group(1), f.loc(), 'numeric printer to %s text does not widen through Utf8::Decode' % wide_out.group(1), func=f.id)
     if n5 < 2:
         raise AnalysisBroken('R16.5: no wide-character numeric conversions instantiated in the witness units')
+
+
+# ---------------------------------------------------------------------------------------- R16.7 the whole text reaches the parser
+class RangeModel(LinModel):
+    def initial_store(self, it, key):
+        return TOP
+
+    def deref(self, it, fr, n, v):
+        return Sym('CHAR')
+
+    def primitive(self, it, fr, n, callee, depth):
+        q = strip_targs(callee['q'])
+        name = callee['n']
+        obj, args = it.call_args(fr, n)
+        if q.startswith('std::basic_string_view'):
+            if name == 'data':
+                return Lin.sym('B')
+            if name in ('size', 'length'):
+                return Lin.sym('L')
+        if q.startswith('std::basic_string') and not q.startswith('std::basic_string_view'):
+            if name in ('data', 'c_str'):
+                return Lin.sym('U')
+            if name in ('size', 'length'):
+                return Lin.sym('UL')
+        if callee['q'] == 'std::from_chars' or (name == 'Encode' and 'Utf8' in callee['q']):
+            vals = [it.ev(fr, a, depth) for a in args]
+            last = Lin.of(vals[1]) if len(vals) > 1 else None
+            what = 'std::from_chars' if name == 'from_chars' else 'Utf8::Encode'
+            if fr.f is self.entry:
+                if last is None:
+                    it.act('NEED', 'the range handed to %s ends at the end of the text' % what, fr.f.loc(n), False)
+                else:
+                    from bsv.linear import eq, entails
+                    c = self.cons(it)
+                    ok = entails(c, eq(last, Lin.sym('B') + Lin.sym('L'))) or entails(c, eq(last, Lin.sym('U') + Lin.sym('UL')))
+                    it.act('NEED', 'the range handed to %s ends at the end of the text' % what, fr.f.loc(n), ok)
+            st = Struct()
+            st.fields['ec'] = 0
+            st.fields['ptr'] = TOP
+            return st
+        for a in args:
+            it.ev(fr, a, depth)
+        if obj is not None:
+            it.ev(fr, obj, depth)
+        return TOP
+
+
+def check_whole_text(prog, rep):
+    rep.rule('R16.7', 'numeric parsers: after the leading blanks the whole remaining text is handed on - the end of the range passed to '
+                      'Utf8::Encode (wide input) / std::from_chars (char input) is the end of the input view (linear constraints)', floor=8)
+    seen = 0
+    for f in sorted(prog.funcs.values(), key=lambda g: g.id):
+        if f.body is None or f.relfile != FUND or f.name != 'To' or len(f.params) != 2 or 'basic_string_view' not in f.type(f.params[0]):
+            continue
+        tgt = base_type(f.type(f.params[1]))
+        if tgt == 'bool' or (tgt not in INT_TYPES and tgt not in ('float', 'double', 'long double')):
+            continue
+        calls = [n for n in f.walk() if n['k'] == 'CallExpr' and ((f.callee(n) or {}).get('q') == 'std::from_chars' or ((f.callee(n) or {}).get('n') == 'Encode'))]
+        if not calls:
+            continue
+        seen += 1
+        rep.touch(f)
+        model = RangeModel()
+        model.entry = f
+        it = LookInterp(prog, model, max_depth=0, max_paths=200)
+
+        def init(it_, fr):
+            it_.n_fresh = 0
+            it_.facts = [le(0, Lin.sym('L'))]
+            fr.env[f.params[0]['d']] = Sym('VIEW')
+            fr.alias[f.params[1]['d']] = 'out.value'
+        agg = {}
+        for p in it.run(f, init):
+            for a in p.actions:
+                if a[0] == 'NEED':
+                    agg.setdefault((a[1], a[2]), []).append(a[3])
+        m = re.search(r"basic_string_view<(\w+)", f.type(f.params[0]))
+        short = 'To(%s <- %s text)' % (tgt, m.group(1) if m else '?')
+        if not agg:
+            raise AnalysisBroken('R16.7: no parser call reached in %s' % f.id[:100])
+        for (what, where), oks in sorted(agg.items()):
+            if all(oks):
+                rep.ok('R16.7', '%s|%s' % (short, what), sample={'parser': short, 'obligation': what, 'at': where})
+            else:
+                rep.finding('R16.7', 'To(number)|%s' % what, where, '%s: "%s" is not entailed: a part of the literal is cut off before parsing, the result '
+                            'differs between string widths' % (short, what), func=f.id)
+    if seen < 8:
+        raise AnalysisBroken('R16.7: only %d numeric parsers instantiated' % seen)
